@@ -234,7 +234,10 @@ func (i *Index) SkipUnless(patterns []string) {
 	for _, e := range i.Entries {
 		var include bool
 		for _, pattern := range patterns {
-			if strings.HasPrefix(e.Name, pattern) {
+			// A pattern names a directory: it selects the entries inside it
+			// by whole path components ("a" selects a/x but not ab/x).
+			dir := strings.TrimSuffix(pattern, "/")
+			if dir == "" || e.Name == dir || strings.HasPrefix(e.Name, dir+"/") {
 				include = true
 				break
 			}
